@@ -64,8 +64,8 @@ EXC_REPRESENTATIVES: list[type] = [
     _asyncio.CancelledError, KeyboardInterrupt, SystemExit, GeneratorExit, _OtherBaseException,
 ]
 SPEC_NAMES = {
-    "old", "result", "exc", "forall", "exists", "implies", "ite", "occ", "pm", "first", "isfirst", "nofirst", "flat",
-    "no_occ", "iff", "Resync", "rk", "view_lo", "view_hi", "view_of", "orempty", "same_object", "unit", "empty_seq", "fn", "typeof", "isnone", "fresh_call",
+    "old", "pre", "result", "exc", "forall", "exists", "implies", "ite", "occ", "pm", "first", "isfirst", "nofirst", "flat",
+    "no_occ", "iff", "Resync", "rk", "view_lo", "view_hi", "view_of", "orempty", "same_object", "base", "isinf", "fin", "xreal", "unit", "empty_seq", "fn", "typeof", "isnone", "fresh_call",
 }
 ALLOWED_EXTERNAL_CONST_MODULES = {"errno", "math", "selectors", "socket", "ssl", "sys", "os"}
 
@@ -156,6 +156,7 @@ class EngineCore:
         self.paths_explored = 0
         self._feas_cache: dict = {}
         self._ident_count: dict[str, int] = {}
+        self.created_shapes: list = []  # (object, Shape) pairs whose invariant is assumed at function entry
         self.module_frames: dict[str, Ref] = {}
         self.max_depth = 40
 
@@ -335,7 +336,7 @@ class EngineCore:
                     if isinstance(obj, int) and parts[0] in ALLOWED_EXTERNAL_CONST_MODULES:
                         return int(obj)
                     if isinstance(obj, float) and parts[0] == "math":
-                        return obj  # math.inf etc: concrete float, handled by comparisons explicitly
+                        return ops.lift(obj)  # math.inf -> extended real
                     if type(obj).__name__ == "module":
                         return ModuleVal(dotted, True)
             except ImportError:
@@ -361,9 +362,7 @@ class EngineCore:
         if isinstance(v, int):
             return z3.IntVal(v)
         if isinstance(v, float):
-            if v in (float("inf"), float("-inf")):
-                return v
-            return z3.RealVal(repr(v))
+            return ops.lift(v)
         if isinstance(v, bytes):
             return smt.bytes_lit(v)
         if v is Ellipsis:
